@@ -194,7 +194,7 @@ func runChunk(c *core.Ctx) {
 		label := fmt.Sprintf("chunk:%s", format)
 		c.Risk(label)
 		var chunks []obiformats.SeqFileChunk
-		ok := c.Bounded(label, 8*time.Second, func() {
+		ok := c.Bounded(label, 20*time.Second, func() {
 			for ch := range obiformats.ReadSeqFileChunk("src", rd, make([]byte, b), splitter(format)) {
 				chunks = append(chunks, ch)
 			}
@@ -319,7 +319,7 @@ func runReader(c *core.Ctx) {
 	var orders []int
 	var got map[int][]obsRec
 	var rerr error
-	ok := c.Bounded(label, 10*time.Second, func() {
+	ok := c.Bounded(label, 25*time.Second, func() {
 		var it obiiter.IBioSequence
 		switch format {
 		case "fasta":
